@@ -85,6 +85,9 @@ type Exec struct {
 	CallHook   func(ex *Exec, st *State, fn *ssa.Function, args []Val) ([]Outcome, bool)
 	MaxPaths   int
 	paths      int
+	GhostSort  map[string]string
+	InitGhost  map[string]string
+	oldNames   map[string]string
 	selfFn     *ssa.Function
 	entryOld   *State
 	NoLemmaAxioms map[string]bool
@@ -108,13 +111,13 @@ func NewExec(prog *load.Program, cs *contract.Set, tables map[string]Val) *Exec 
 		typeIDs: map[string]int{}, promoted: map[*Obj]string{}, mapObjs: map[string]*Obj{}, mapOrigin: map[*Obj]mapOrig{},
 		globals: map[string]*Obj{}, globalInit: map[string]Val{}, globalInitPC: map[string][]string{},
 		GlobalWrites: map[string]bool{}, GlobalReads: map[string]bool{}, pureAxioms: map[string]bool{},
-		NoLemmaAxioms: map[string]bool{}, tableArrs: map[string]string{},
+		NoLemmaAxioms: map[string]bool{}, GhostSort: map[string]string{}, oldNames: map[string]string{}, tableArrs: map[string]string{},
 		MaxPaths: 20000, UsedTrusted: map[string]bool{}, UsedContracts: map[string]bool{}, Inlined: map[string]bool{},
 	}
 }
 
 func (ex *Exec) NewState() *State {
-	return &State{Mem: map[*Obj]Val{}, Heap: map[string]string{}}
+	return &State{Mem: map[*Obj]Val{}, Heap: map[string]string{}, Ghost: map[string]string{}}
 }
 
 // Prelude is the SMT text shared by all obligations of this context.
